@@ -89,8 +89,8 @@ func validTok(p P) string {
 	return "x"
 }
 
-var badInts = []string{"abc", "1.5", "", "99999999999999999999", "9223372036854775808", "9999999999999999999", "-9223372036854775809"}
-var badFloats = []string{"abc", "", "1.5.2", "--1"}
+var badInts = []string{"abc", "1.5", "", "99999999999999999999", "9223372036854775808", "9999999999999999999", "-9223372036854775809", " 1", "1 ", "0x10", "1e3", "(5"}
+var badFloats = []string{"abc", "", "1.5.2", "--1", "(5", "(-1.5", "(inf", " 1", "1 "}
 var badBounds = []string{"abc", "", "(", "(abc"}
 
 // minimal returns a minimal well-formed vector of the schema and the kind of each argument (P or -1 for fixed tokens / tail strings).
